@@ -7,7 +7,7 @@ import Mamba.Lemmas.CanonFCert
   divider if that index is `< spl`; `deage_first_removed` is the resulting description of `deage`.
 * `deage_bd_prefix`, `deage_order_agree`, `deage_bin_single`, `deage_prefixSingle` — dividers / order in front of the first
   removed divider are untouched; a singleton bin of the result was a surviving singleton bin before.
-* `deage_cert` — `VAny` before `deage` gives `VN` after it.
+* `deage_cert` — `VAny` before `deage` gives `VN` (= `VClean`) after it.
 -/
 namespace CanonF
 
@@ -394,8 +394,9 @@ theorem deage_cert {n : Nat} {nb : Nbrs} {cb fl : Sl Nat} {op op' : OP} (h : Par
       ∃ extra, op.value.toList = certPos nb op.order.toList op.spl ++ extra ∧ ∀ x ∈ extra, tri op.spl ≤ x := by
     rcases hv with c | ⟨c, _⟩
     · exact ⟨c.pre.toPrefixSingle, c.wf, [], by rw [c.val]; simp, by simp⟩
-    · exact ⟨c.pre, c.wf, c.val⟩
+    · exact ⟨c.pre, c.wf, [], by rw [c.val]; simp, by simp⟩
   obtain ⟨hps, hwf, extra, hval, hextra⟩ := hcommon
+  show VClean nb op'
   have hol : op.order.toList.length = n := by rw [Sl.length_toList _ h.wfOrder, h.lenOrder]
   have hol' : op'.order.toList.length = n := by rw [Sl.length_toList _ hP'.wfOrder, hP'.lenOrder]
   have hsn : op.spl ≤ n := Nat.le_trans hps.le h.bdLen_le
@@ -409,19 +410,14 @@ theorem deage_cert {n : Nat} {nb : Nbrs} {cb fl : Sl Nat} {op op' : OP} (h : Par
       certPos_frame nb _ _ _ (by omega) (by omega) hord
     have hps' : PrefixSingle op' := deage_prefixSingle h ha hage hd op.spl hps.le hps.single hkeep r2
     rcases hv with c | ⟨c, hsa⟩
-    · refine Or.inl ⟨⟨hps', ?_⟩, by rw [r3]; exact c.wf, by rw [r3, r2, hcert]; exact c.val⟩
+    · refine ⟨⟨hps', ?_⟩, by rw [r3]; exact c.wf, by rw [r3, r2, hcert]; exact c.val⟩
       intro hb
       rw [r2] at hb
       obtain ⟨b1, _⟩ := deage_bin_single h ha hage hd op.spl hps.single hb
       exact c.pre.next b1
-    · refine Or.inr ⟨⟨hps', by rw [r3]; exact c.wf, by rw [r3, r2, hcert]; exact c.val,
-        by rw [r3]; exact c.poisoned, by rw [r2, hP'.lenOrder]; have := c.lt; rw [h.lenOrder] at this; exact this⟩, ?_⟩
-      intro hb
-      rw [r2] at hb
-      obtain ⟨b1, a, b2, b3⟩ := deage_bin_single h ha hage hd op.spl hps.single hb
-      have := hsa b1
-      rw [b2] at this
-      exact b3 (Option.some.inj this)
+    · -- `StaleAge`: some divider in front of `spl` is removed
+      obtain ⟨k, d, hk, hkd⟩ := hsa
+      exact absurd hkd (hkeep k d hk)
   · -- the first removed divider has index `op'.spl < op.spl`
     have hsing : ∀ k, k < op'.spl → op.binDividers.toList[k]? = some (k + 1) :=
       fun k hk => hps.single k (by omega)
@@ -456,6 +452,6 @@ theorem deage_cert {n : Nat} {nb : Nbrs} {cb fl : Sl Nat} {op op' : OP} (h : Par
       · intro x hx
         rw [← deage_tri_eq]; exact r6 x hx
       · rw [← deage_tri_eq]; exact r7
-    exact Or.inl ⟨⟨hps', hnext⟩, hwf', by rw [htake, hcut, hcert]⟩
+    exact ⟨⟨hps', hnext⟩, hwf', by rw [htake, hcut, hcert]⟩
 
 end CanonF
